@@ -262,6 +262,20 @@ func VH_conditions(size int) {
 	thenP := vpNew(0, 0, 4)
 	elseP := vpNew(0, 0, 5)
 	which := verifChoice(3)
+	// the condition is the operand itself, the operand in parentheses, or a prefix operator
+	// applied to it: what decides is the truthiness of the condition's *value*
+	wrap := verifChoice(5)
+	operand := c
+	switch wrap {
+	case 1:
+		c = &ast.Grouping{Expression: operand}
+	case 2:
+		c = &ast.Unary{Operator: tok(token.BANG, "!", 3), Right: operand, Line: 3}
+	case 3:
+		c = &ast.Unary{Operator: tok(token.NOT, "~", 3), Right: operand, Line: 3}
+	case 4:
+		c = &ast.Unary{Operator: tok(token.MINUS, "-", 3), Right: operand, Line: 3}
+	}
 	var node ast.Stmt
 	switch which {
 	case 0:
@@ -278,6 +292,24 @@ func VH_conditions(size int) {
 	_, sig := in.eval(node, env, false)
 	verifAssert("cond-returns-a-signal", sig != nil)
 	t := specTruthy(vpVals[0][0])
+	if wrap >= 2 {
+		ops := []token.TokenType{token.BANG, token.NOT, token.MINUS}
+		r := specUnary(ops[wrap-2], vpVals[0][0])
+		switch r.cls {
+		case clsError:
+			verifAssert("cond-failing-condition-runs-neither-arm", vpCalls[1] == 0 && vpCalls[2] == 0 && hvCountStderr() >= 1)
+			return
+		case clsValue:
+			if r.kind == rkBool {
+				t = r.b
+			} else {
+				t = r.num != 0
+			}
+		default:
+			verifReach("cond-open")
+			return
+		}
+	}
 	if t {
 		verifAssert("truthy-condition-runs-the-body", vpCalls[1] == 1)
 		verifAssert("truthy-condition-skips-else", vpCalls[2] == 0)
